@@ -60,9 +60,11 @@ func (k *Keystore) HasKey(ctx context.Context, id string) (bool, error) {
 			return false, errmsg.ErrKeyNotInKeystore.Wrap(err)
 		}
 
-		if storedKey != nil {
-			k.cache.Add(id, base64.StdEncoding.EncodeToString(value))
-		}
+		// the key is in the datastore but not in this instance's cache
+		// (new instance or evicted entry)
+		k.cache.Add(id, base64.StdEncoding.EncodeToString(value))
+
+		return true, nil
 	}
 
 	return storedKey != nil, nil
